@@ -347,7 +347,24 @@ pub fn eval_key(c: &KeyCase) -> Outcome {
         o.class("rejected_call_before_first_keyframe");
     }
     let first_idx = ops.len();
-    ops.push(COp::Video { pts: 0.0, data: frame.clone(), key: true });
+    // the keyframe under test arrives through one of the three video entry points (encode_video detects keyframes itself:
+    // only used when the access unit carries an IDR slice; AV1 / VP9 first frames always qualify)
+    let has_idr = match codec {
+        0 => c.nals.iter().any(|g| g.typ & 0x1f == 5),
+        1 => c.nals.iter().any(|g| (19..=21).contains(&(g.typ & 0x3f))),
+        _ => true,
+    };
+    match c.width % 3 {
+        1 => {
+            ops.push(COp::VideoDts { pts: 0.0, dts: 0.0, data: frame.clone(), key: true });
+            o.class("entry:write_video_with_dts");
+        }
+        2 if has_idr => {
+            ops.push(COp::EncVideo { data: frame.clone(), ms: 33 });
+            o.class("entry:encode_video");
+        }
+        _ => ops.push(COp::Video { pts: 0.0, data: frame.clone(), key: true }),
+    }
     if c.second_frame {
         // a later keyframe with different parameter sets must not replace the configuration
         let mut later = frame.clone();
@@ -638,7 +655,7 @@ fn init_strategy() -> impl Strategy<Value = InitCase> {
             level: 0,
             full_range_flag: fr,
         }),
-        (any::<bool>(), prop_oneof![2 => Just(0u8), 1 => 0u8..16]),
+        (any::<bool>(), prop_oneof![2 => Just(0u8), 1 => 0u8..16, 2 => any::<u8>()]),
     )
         .prop_map(|(codec, width, height, sps, pps, vps, av1, av1_obu, vp9, (via_builder, stray))| InitCase {
             codec,
